@@ -239,7 +239,11 @@ pub fn run(args: &[&str]) -> String {
             let e = DeltaBitPacked::encode(&xs);
             // the packed deltas are not exposed; re-derive them the way `encode` does
             let ds: Vec<u64> = xs.windows(2).map(|w| w[1].saturating_sub(w[0])).collect();
-            let p = BitPackedInts::pack(&ds);
+            let p = if ds.is_empty() && !xs.is_empty() {
+                BitPackedInts::pack_with_bits(&[], 1)
+            } else {
+                BitPackedInts::pack(&ds)
+            };
             assert_eq!(p.bits_per_value(), e.bits_per_delta());
             format!("{};{}", e.base(), packed_str(&p))
         }
